@@ -139,29 +139,32 @@ def scanRight (trimEnd : Bool) : List Char → Nat → RightScan
     else if notWsExceptLf g then .stop i
     else scanRight trimEnd r (i + 1)
 
+/-- The second half of `break_at` (string.rs:248-274): take in the white space to the right of
+`input[index]`. -/
+def breakAtRight (trimEnd : Bool) (input : List Char) (index indexMinusWs : Nat) : Snippet :=
+  match scanRight trimEnd (input.drop (index + 1)) 0 with
+  | .feed i => .endWithLineFeed (input.take (index + 1 + i + 1)) (index + 2 + i)
+  | .stop i =>
+    let indexPlusWs := index + i
+    if trimEnd then .lineEnd (input.take (indexMinusWs + 1)) (indexPlusWs + 1)
+    else .lineEnd (input.take (indexPlusWs + 1)) (indexPlusWs + 1)
+  | .exhausted =>
+    -- `only_whitespaces_follow`: with `trim_end = false` the rest is significant and stays here
+    if trimEnd then .lineEnd (input.take (indexMinusWs + 1)) (index + 1)
+    else .endOfInput input
+
 /-- The closure `break_at` (string.rs:225-274); `input[index]` is included in the line. -/
 def breakAt (trimEnd : Bool) (input : List Char) (index : Nat) : Snippet :=
   let pre := input.take (index + 1)
   let indexMinusWs := (rposition notWsExceptLf pre).getD index
-  let right : Snippet :=
-    match scanRight trimEnd (input.drop (index + 1)) 0 with
-    | .feed i => .endWithLineFeed (input.take (index + 1 + i + 1)) (index + 2 + i)
-    | .stop i =>
-      let indexPlusWs := index + i
-      if trimEnd then .lineEnd (input.take (indexMinusWs + 1)) (indexPlusWs + 1)
-      else .lineEnd (input.take (indexPlusWs + 1)) (indexPlusWs + 1)
-    | .exhausted =>
-      -- `only_whitespaces_follow`: with `trim_end = false` the rest is significant and stays here
-      if trimEnd then .lineEnd (input.take (indexMinusWs + 1)) (index + 1)
-      else .endOfInput input
   -- only the first line feed of `input[0..=index]` is looked at (`break` after it)
   match position isNl pre with
   | some i =>
     if i ≤ indexMinusWs then
       let line := input.take i
       .endWithLineFeed ((if trimEnd then trimEndWs line else line) ++ ['\n']) (i + 1)
-    else right
-  | none => right
+    else breakAtRight trimEnd input index indexMinusWs
+  | none => breakAtRight trimEnd input index indexMinusWs
 
 /-- `max_width_index_in_input` (string.rs:269-280): the first index at which the width of
 `input[0..=i]` exceeds `max_width`, else the last index (0 for the empty input). -/
@@ -195,19 +198,23 @@ def firstValidFrom (input : List Char) (pos : Nat) : Nat → Option Nat
 
 def MIN_STRING : Nat := 10
 
-/-- The three-stage search of string.rs:311-337. -/
+/-- Third stage of the search (string.rs:335-343): the first boundary at or after the limit. -/
+def searchRight (trimEnd : Bool) (input : List Char) (mwi : Nat) : Snippet :=
+  match firstValidFrom input mwi (input.length - mwi) with
+  | some index => breakAt trimEnd input index
+  | none => .endOfInput input
+
+/-- Second stage (string.rs:326-334): the last boundary before the limit, if the line is long enough. -/
+def searchPunct (trimEnd : Bool) (input : List Char) (mwi : Nat) : Snippet :=
+  match lastValidBelow input mwi with
+  | some index => if MIN_STRING ≤ index then breakAt trimEnd input index else searchRight trimEnd input mwi
+  | none => searchRight trimEnd input mwi
+
+/-- The three-stage search of string.rs:319-345: the last white space before the limit first. -/
 def searchBreak (trimEnd : Bool) (input : List Char) (mwi : Nat) : Snippet :=
-  let punct : Snippet :=
-    let right : Snippet :=
-      match firstValidFrom input mwi (input.length - mwi) with
-      | some index => breakAt trimEnd input index
-      | none => .endOfInput input
-    match lastValidBelow input mwi with
-    | some index => if MIN_STRING ≤ index then breakAt trimEnd input index else right
-    | none => right
   match rposition isWs (input.take mwi) with
-  | some index => if MIN_STRING ≤ index then breakAt trimEnd input index else punct
-  | none => punct
+  | some index => if MIN_STRING ≤ index then breakAt trimEnd input index else searchPunct trimEnd input mwi
+  | none => searchPunct trimEnd input mwi
 
 /-- `break_string(max_width, trim_end, line_end, input)`. -/
 def breakString (maxWidth : Nat) (trimEnd : Bool) (lineEnd : List Char) (input : List Char) : Snippet :=
